@@ -1,6 +1,6 @@
-(* Proofs/JsonSafeB.v — Marshal of a json.RawMessage (compact with HTML
-   escaping) writes no control byte: in a valid JSON text control bytes occur
-   only as whitespace outside strings, and exactly that whitespace is dropped. *)
+(* Proofs/JsonSafeB.v — one-step unfolding equations for compact_f and the
+   JSON scanner, with the numeral patterns replaced by boolean tests
+   (used by JsonSafeC.v). *)
 From VL Require Import Bytes Lit Json Wire Service Client JsonSafeA.
 Open Scope N_scope.
 
@@ -105,6 +105,193 @@ Lemma scan_string_cons : forall f c r, scan_string (S f) (c :: r) =
   else if c <? 32 then None
   else match scan_string f r with Some (a, k) => Some (c :: a, k) | None => None end.
 Proof.
-  intros f c r. deep c; try reflexivity.
-  destruct r; reflexivity.
+  intros f c r. deep c; reflexivity.
+Qed.
+
+
+(* ---------- scan_value, one step ---------- *)
+
+Definition sv_num (s : bytes) : option (jv * bytes) :=
+  match scan_number s with Some (tok, k) => Some (VNum tok, k) | None => None end.
+Definition sv_str (r : bytes) : option (jv * bytes) :=
+  match scan_string (S (length r)) r with Some (raw, k) => Some (VStr raw, k) | None => None end.
+Definition sv_obj (f : nat) (d : N) (r : bytes) : option (jv * bytes) :=
+  if max_depth <? d + 1 then None else
+  match skip_ws r with
+  | 125 :: k => Some (VObj [], k)
+  | r1 => scan_members f (d + 1) [] r1
+  end.
+Definition sv_arr (f : nat) (d : N) (r : bytes) : option (jv * bytes) :=
+  if max_depth <? d + 1 then None else
+  match skip_ws r with
+  | 93 :: k => Some (VArr [], k)
+  | r1 => scan_elements f (d + 1) [] r1
+  end.
+Definition kw_t (r : bytes) : option (jv * bytes) :=
+  match r with 114 :: 117 :: 101 :: k => Some (VBool true, k) | _ => None end.
+Definition kw_f (r : bytes) : option (jv * bytes) :=
+  match r with 97 :: 108 :: 115 :: 101 :: k => Some (VBool false, k) | _ => None end.
+Definition kw_n (r : bytes) : option (jv * bytes) :=
+  match r with 117 :: 108 :: 108 :: k => Some (VNull, k) | _ => None end.
+
+Lemma scan_value_O : forall d s, scan_value O d s = None.
+Proof. reflexivity. Qed.
+Lemma scan_value_nil : forall f d, scan_value f d [] = None.
+Proof. destruct f; reflexivity. Qed.
+
+Lemma scan_value_cons : forall f d c r, scan_value (S f) d (c :: r) =
+  if c =? 123 then sv_obj f d r
+  else if c =? 91 then sv_arr f d r
+  else if c =? 34 then sv_str r
+  else if c =? 116 then kw_t r
+  else if c =? 102 then kw_f r
+  else if c =? 110 then kw_n r
+  else sv_num (c :: r).
+Proof. intros f d c r. deep c; reflexivity. Qed.
+
+Lemma sv_obj_eq : forall f d r, sv_obj f d r =
+  if max_depth <? d + 1 then None else
+  match skip_ws r with
+  | [] => scan_members f (d + 1) [] []
+  | c :: k => if c =? 125 then Some (VObj [], k) else scan_members f (d + 1) [] (c :: k)
+  end.
+Proof.
+  intros f d r. unfold sv_obj. destruct (max_depth <? d + 1); [reflexivity|].
+  destruct (skip_ws r) as [|c k]; [reflexivity|]. deep c; reflexivity.
+Qed.
+
+Lemma sv_arr_eq : forall f d r, sv_arr f d r =
+  if max_depth <? d + 1 then None else
+  match skip_ws r with
+  | [] => scan_elements f (d + 1) [] []
+  | c :: k => if c =? 93 then Some (VArr [], k) else scan_elements f (d + 1) [] (c :: k)
+  end.
+Proof.
+  intros f d r. unfold sv_arr. destruct (max_depth <? d + 1); [reflexivity|].
+  destruct (skip_ws r) as [|c k]; [reflexivity|]. deep c; reflexivity.
+Qed.
+
+Lemma kw_t_inv : forall r v k, kw_t r = Some (v, k) -> r = 114 :: 117 :: 101 :: k.
+Proof.
+  intros r v k H. unfold kw_t in H.
+  destruct r as [|c1 r]; [discriminate|]. deep c1; try discriminate.
+  destruct r as [|c2 r]; [discriminate|]. deep c2; try discriminate.
+  destruct r as [|c3 r]; [discriminate|]. deep c3; try discriminate.
+  inversion H; subst. reflexivity.
+Qed.
+
+Lemma kw_n_inv : forall r v k, kw_n r = Some (v, k) -> r = 117 :: 108 :: 108 :: k.
+Proof.
+  intros r v k H. unfold kw_n in H.
+  destruct r as [|c1 r]; [discriminate|]. deep c1; try discriminate.
+  destruct r as [|c2 r]; [discriminate|]. deep c2; try discriminate.
+  destruct r as [|c3 r]; [discriminate|]. deep c3; try discriminate.
+  inversion H; subst. reflexivity.
+Qed.
+
+Lemma kw_f_inv : forall r v k, kw_f r = Some (v, k) -> r = 97 :: 108 :: 115 :: 101 :: k.
+Proof.
+  intros r v k H. unfold kw_f in H.
+  destruct r as [|c1 r]; [discriminate|]. deep c1; try discriminate.
+  destruct r as [|c2 r]; [discriminate|]. deep c2; try discriminate.
+  destruct r as [|c3 r]; [discriminate|]. deep c3; try discriminate.
+  destruct r as [|c4 r]; [discriminate|]. deep c4; try discriminate.
+  inversion H; subst. reflexivity.
+Qed.
+
+(* ---------- scan_members / scan_elements, one step ---------- *)
+
+Definition sm_tail (f : nat) (d : N) (acc' : list (bytes * jv * bytes * bytes)) (k3 : bytes)
+  : option (jv * bytes) :=
+  match skip_ws k3 with
+  | 44 :: k4 => scan_members f d acc' (skip_ws k4)
+  | 125 :: k4 => Some (VObj (rev acc'), k4)
+  | _ => None
+  end.
+
+Definition sm_colon (f : nat) (d : N) (acc : list (bytes * jv * bytes * bytes)) (key k1 : bytes)
+  : option (jv * bytes) :=
+  match skip_ws k1 with
+  | 58 :: k2 =>
+    match scan_value f d (skip_ws k2) with
+    | None => None
+    | Some (v, k3) => sm_tail f d ((key, v, skip_ws k2, k3) :: acc) k3
+    end
+  | _ => None
+  end.
+
+Definition sm_key (f : nat) (d : N) (acc : list (bytes * jv * bytes * bytes)) (r : bytes)
+  : option (jv * bytes) :=
+  match scan_string (S (length r)) r with
+  | None => None
+  | Some (key, k1) => sm_colon f d acc key k1
+  end.
+
+Lemma scan_members_O : forall d acc s, scan_members O d acc s = None.
+Proof. reflexivity. Qed.
+
+Lemma scan_members_S : forall f d acc s, scan_members (S f) d acc s =
+  match s with
+  | [] => None
+  | c :: r => if c =? 34 then sm_key f d acc r else None
+  end.
+Proof. intros f d acc [|c r]; [reflexivity|]. deep c; reflexivity. Qed.
+
+Lemma sm_colon_eq : forall f d acc key k1, sm_colon f d acc key k1 =
+  match skip_ws k1 with
+  | [] => None
+  | c :: k2 =>
+    if c =? 58 then
+      match scan_value f d (skip_ws k2) with
+      | None => None
+      | Some (v, k3) => sm_tail f d ((key, v, skip_ws k2, k3) :: acc) k3
+      end
+    else None
+  end.
+Proof.
+  intros f d acc key k1. unfold sm_colon.
+  destruct (skip_ws k1) as [|c k2]; [reflexivity|]. deep c; reflexivity.
+Qed.
+
+Lemma sm_tail_eq : forall f d acc' k3, sm_tail f d acc' k3 =
+  match skip_ws k3 with
+  | [] => None
+  | c :: k4 =>
+    if c =? 44 then scan_members f d acc' (skip_ws k4)
+    else if c =? 125 then Some (VObj (rev acc'), k4)
+    else None
+  end.
+Proof.
+  intros f d acc' k3. unfold sm_tail.
+  destruct (skip_ws k3) as [|c k4]; [reflexivity|]. deep c; reflexivity.
+Qed.
+
+Definition se_tail (f : nat) (d : N) (acc : list jv) (v : jv) (k : bytes) : option (jv * bytes) :=
+  match skip_ws k with
+  | 44 :: k2 => scan_elements f d (v :: acc) (skip_ws k2)
+  | 93 :: k2 => Some (VArr (rev (v :: acc)), k2)
+  | _ => None
+  end.
+
+Lemma scan_elements_O : forall d acc s, scan_elements O d acc s = None.
+Proof. reflexivity. Qed.
+
+Lemma scan_elements_S : forall f d acc s, scan_elements (S f) d acc s =
+  match scan_value f d s with
+  | None => None
+  | Some (v, k) => se_tail f d acc v k
+  end.
+Proof. reflexivity. Qed.
+
+Lemma se_tail_eq : forall f d acc v k, se_tail f d acc v k =
+  match skip_ws k with
+  | [] => None
+  | c :: k2 =>
+    if c =? 44 then scan_elements f d (v :: acc) (skip_ws k2)
+    else if c =? 93 then Some (VArr (rev (v :: acc)), k2)
+    else None
+  end.
+Proof.
+  intros f d acc v k. unfold se_tail.
+  destruct (skip_ws k) as [|c k2]; [reflexivity|]. deep c; reflexivity.
 Qed.
